@@ -214,7 +214,8 @@ class Reifier:
         if k == 'atom':
             if z3.is_const(s.t) and s.t.decl().name().split('!')[0] == 'uuid':
                 return WILD
-            return f'@atom{t.as_long()}'
+            from .values import atom_str
+            return atom_str(t.as_long())
         # universal
         name = t.decl().name()
         if name == 'none':
@@ -229,7 +230,8 @@ class Reifier:
         if name == 's':
             return decode_z3_string(arg)
         if name == 'a':
-            return f'@atom{arg.as_long()}'
+            from .values import atom_str
+            return atom_str(arg.as_long())
         if name == 'l':
             return [f'@list{arg.as_long()}']      # an opaque list value: identified by its handle
         return WILD
